@@ -388,3 +388,8 @@ def encloses(eng, bounds, d):
     if hi is not None:
         parts.append(zreal(d) <= zreal(hi))
     return SV(z3.And(*parts), "bool") if parts else True
+
+
+@spec
+def distinct_from(eng, o, vs):
+    return all(v is not o for v in vs)
